@@ -51,6 +51,11 @@ MUTANTS = [
     ('testTearDown-forward', 'C05', R,
      "        for layer in self.layers[-1::-1]:\n            if hasattr(layer, 'testTearDown'):",
      "        for layer in self.layers:\n            if hasattr(layer, 'testTearDown'):"),
+    # breaks only under interpreters older than the one the simulator itself runs on: must be
+    # caught by the cross-version tier (real processes under 3.9/3.10/3.11)
+    ('per-test-teardown-skipped-on-older-pythons', 'C05', R,
+     "        for layer in self.layers[-1::-1]:\n            if hasattr(layer, 'testTearDown'):",
+     "        for layer in self.layers[-1::-1]:\n            if hasattr(layer, 'testTearDown') and sys.version_info >= (3, 12):"),
     ('summary-counts-failures-only', 'C12', R,
      "        n_failures += len(result.unexpectedSuccesses)\n",
      "        pass\n"),
@@ -84,6 +89,10 @@ MUTANTS = [
     ('shuffle-seed-varies-per-child', 'C11', S,
      "        rng = random.Random(self.seed)\n",
      "        rng = random.Random(self.seed)\n        self.seed += (self.runner.options.resume_number or 0)\n"),
+    # (machinery test of the cross-version tier: differs only under interpreters older than 3.11)
+    ('shuffle-differs-on-older-pythons', 'C11', S,
+     "            floor = math.floor\n",
+     "            floor = math.floor\n            if __import__('sys').version_info < (3, 11):\n                tests.reverse()\n"),
     ('shuffle-after-filter', 'C11', R,
      "        self.features.append(zope.testrunner.shuffle.Shuffle(self))\n        self.features.append(zope.testrunner.process.SubProcess(self))\n        self.features.append(zope.testrunner.filter.Filter(self))",
      "        self.features.append(zope.testrunner.process.SubProcess(self))\n        self.features.append(zope.testrunner.filter.Filter(self))\n        self.features.append(zope.testrunner.shuffle.Shuffle(self))"),
